@@ -242,8 +242,9 @@ protected:
      */
    MUSCLE_NODISCARD ZLibCodec * GetReceiveCodec(int32 encoding) const
    {
-      // For receiving data, any ZLibCodec will do, so we'll just force it to the default codec-level
-      return GetCodec(muscleInRange((int32)encoding, (int32)MUSCLE_MESSAGE_ENCODING_ZLIB_1, (int32)MUSCLE_MESSAGE_ENCODING_ZLIB_9) ? MUSCLE_MESSAGE_ENCODING_ZLIB_6 : encoding, _recvCodec);
+      // Note that we key the receive-codec on the sender's actual compression-level (as UnflattenHeaderAndMessage() does):  when the sender
+      // switches to a different level it starts a new deflate-stream, so we need to start a new inflate-stream at the same point.
+      return GetCodec(encoding, _recvCodec);
    }
 #endif
 
